@@ -1,4 +1,5 @@
 import FitProps.WriterStreamLemmas
+import FitProps.WriterCtxLemmas
 /-!
 # C09 — Output bytes do not depend on writer kind, buffering or batch vs stream
 
@@ -240,6 +241,39 @@ theorem C09_caveat_append_mode_witness :
     ((⟨[], 0, []⟩ : Dest).runAppend r.1.w.d.log.reverse).content =
       (hdrBytes Caveat.h 0 ++ Caveat.spec.drop 14) ++ Caveat.spec.take 14 ∧
     ((⟨[], 0, []⟩ : Dest).runAppend r.1.w.d.log.reverse).content ≠ Caveat.spec := by
+  decide +kernel
+
+/-! ### `EncodeWithContext` -/
+
+/-- A CONTEXT THAT IS NEVER CANCELLED GIVES EXACTLY `Encode`: for every message validator, fault schedule, option set and
+encoder state (any destination kind, buffer size, content), `EncodeWithContext(ctx, fit)` with a context whose `Done()` never
+fires — `context.Background()` — leaves the same encoder (hence the same destination: content, position, operation log) and
+returns the same result as `Encode(fit)`; so every C09 / C11 theorem about `Encode` speaks about such a call too. (Both
+variants of `calculateDataSizeWithContext`, as pinned and as repaired: `CtxCfg`.) -/
+theorem C09_ctx_equals_plain {σ : Type} (V : MsgValidator σ) (cc : CtxCfg) (F : Faults) (o : Opts) (e : Enc) (f : FitIn) :
+    encodeCtxV V cc F o none ⟨e, false⟩ f = (⟨(encodeV V F o e f).1, false⟩, (encodeV V F o e f).2) :=
+  encodeCtxV_none V cc F o e f
+
+namespace CtxWitness
+def o : Opts := ⟨0, false, 1⟩
+def h : Fit.Wire.Hdr := ⟨14, 16, 21158⟩
+def m1 : WMsg := ⟨20, [⟨151, 2, 3, [0x16]⟩], []⟩
+def m2 : WMsg := ⟨20, [⟨151, 2, 3, [0xc0]⟩], []⟩
+/-- `EncodeWithContext(cancelled ctx, [m1])` then `Encode([m2])` on one encoder over an unbuffered plain writer -/
+def run (cc : CtxCfg) : EncC × Res × Res :=
+  let r1 := encodeCtxV passThrough cc noFault o (some 0) ⟨Enc.new o .plain 0 ⟨[], 0, []⟩, false⟩ ⟨h, 0, [m1]⟩
+  let r2 := encodeCtxV passThrough cc noFault o none r1.1 ⟨h, 0, [m2]⟩
+  (r2.1, r1.2, r2.2)
+end CtxWitness
+
+/-- **Witness of KF-C09-ctx-discard** (reported by ./check C09, repaired in /repo 4876fc8). With the code as it was pinned (`restoresWriter = false`: `calculateDataSizeWithContext` returns
+the context's error with `e.w` still `io.Discard`) the `Encode` that follows a cancelled `EncodeWithContext` on a plain writer
+reports SUCCESS and the destination stays empty; with the writer restored it holds exactly the second sequence. -/
+theorem C09_ctx_discard_witness :
+    (CtxWitness.run ⟨false⟩).2 = (.ec, .ok) ∧ (CtxWitness.run ⟨false⟩).1.e.w.d.content = [] ∧
+      (CtxWitness.run ⟨false⟩).1.e.w.d.log = [] ∧
+    (CtxWitness.run ⟨true⟩).2 = (.ec, .ok) ∧
+      (CtxWitness.run ⟨true⟩).1.e.w.d.content = encodeChain CtxWitness.o [(CtxWitness.h, [CtxWitness.m2])] := by
   decide +kernel
 
 end Fit.C09
